@@ -691,9 +691,10 @@ public:
         emitText(std::string(outputData.data(), outputData.size()));
       }
     } else {
-      // If the process was cancelled, assume it is because we were
-      // interrupted.
-      if (result.status == ProcessStatus::Cancelled) {
+      // If the process was cancelled while the build is being cancelled,
+      // assume it is because we were interrupted. (A process killed by someone
+      // else while the build goes on is a failed command like any other.)
+      if (result.status == ProcessStatus::Cancelled && isCancelled) {
         lock.lock();
         outputBuffers.erase(handle.id);
         return;
